@@ -25,8 +25,11 @@ type c20Plan struct {
 	// not depend on what was evaluated before - in this run or, one run being one process, in this process.
 	CallSeed uint64 `json:"call_seed"`
 	// Tasks is the number of tasks of the concurrent execution.
-	Tasks int   `json:"tasks"`
-	Knobs Knobs `json:"knobs"`
+	Tasks int `json:"tasks"`
+	// ConcFirst: the concurrent execution is the first thing the process does (a lazily built table is then
+	// built under contention).
+	ConcFirst bool  `json:"conc_first,omitempty"`
+	Knobs     Knobs `json:"knobs"`
 }
 
 type c20 struct{}
@@ -43,7 +46,7 @@ func (c20) NRuns(tier string) int {
 	return 720
 }
 func (c20) Rule() string {
-	return "one run = one fresh worker process and one iteration order of the 7-key level map (orders enumerated as Fisher-Yates choice sequences, without replacement; thorough = all 5040, four runs each = exhaustive over orders); each run evaluates sql levels -8..64 forward and ASE levels -3..8 backward, every call twice at seeded shuffled positions, (1) under the canonical map order, (2) under the run's order, (3) from 2..4 concurrent tasks under a seeded schedule and the race detector; all answers for one input must agree and match the statement's table; non-trivial = order differs from canonical; distinct = distinct (order, call seed)"
+	return "one run = one fresh worker process and one iteration order of the 7-key level map (orders enumerated as Fisher-Yates choice sequences, without replacement; thorough = all 5040, four runs each = exhaustive over orders); each run evaluates sql levels -8..64 forward and ASE levels -3..8 backward, every call twice at seeded shuffled positions, (1) under the canonical map order, (2) under the run's order, (3) from 2..4 concurrent tasks under a seeded schedule and the race detector (in every second run this comes first, so that whatever the process builds lazily is built under contention); all answers for one input must agree and match the statement's table; non-trivial = order differs from canonical; distinct = distinct (order, call seed)"
 }
 func (c20) Components() map[string]string {
 	return map[string]string{"isolationlevels.go": "real (rewritten)", "map iteration order": "stub: simrt.MapKeys seeded permutation", "goroutine scheduling": "simulated (simrt baton scheduler) in the concurrent execution", "process": "real: one OS process per run"}
@@ -64,7 +67,7 @@ func (c20) Gen(r *Rand, idx int, tier string) interface{} {
 	if tier != "thorough" {
 		order = (idx*7 + idx%7) % 5040
 	}
-	return &c20Plan{Order: order, Digits: c20Digits(order), NKeys: c20Keys, CallSeed: r.Uint64(), Tasks: 2 + r.Intn(3), Knobs: GenKnobs(r)}
+	return &c20Plan{Order: order, Digits: c20Digits(order), NKeys: c20Keys, CallSeed: r.Uint64(), Tasks: 2 + r.Intn(3), Knobs: GenKnobs(r), ConcFirst: idx%2 == 1}
 }
 
 func (c20) Decode(raw json.RawMessage) (interface{}, error) {
@@ -147,24 +150,36 @@ func (c20) Run(plan interface{}, schedSeed uint64, replay []simrt.Choice, lenien
 		return t
 	}
 	var ref, got []answer
-	s1 := simrt.New(simrt.Config{Seed: schedSeed, Replay: tape(true), Lenient: true, Cycle: true})
-	out1 := s1.Run(func() { ref = eval("canonical order", 0, false) })
-	s2 := simrt.New(simrt.Config{Seed: schedSeed, Replay: tape(false), Lenient: true, Cycle: true})
-	out2 := s2.Run(func() { got = eval("run's order", 0, false) })
-	cfg := p.Knobs.Config(schedSeed)
-	cfg.Replay, cfg.Lenient, cfg.KeepLog = replay, lenient, keepLog
-	s3 := simrt.New(cfg)
+	var out1, out2, out *simrt.Outcome
 	conc := make([][]answer, p.Tasks)
-	out := s3.Run(func() {
-		var ts []*simrt.Task
-		for ti := 0; ti < p.Tasks; ti++ {
-			ti := ti
-			ts = append(ts, simrt.Spawn(fmt.Sprintf("t%d", ti), func() {
-				conc[ti] = eval(fmt.Sprintf("concurrent task %d", ti), ti*37, true)
-			}))
-		}
-		simrt.Join(ts...)
-	})
+	sequential := func() {
+		s1 := simrt.New(simrt.Config{Seed: schedSeed, Replay: tape(true), Lenient: true, Cycle: true})
+		out1 = s1.Run(func() { ref = eval("canonical order", 0, false) })
+		s2 := simrt.New(simrt.Config{Seed: schedSeed, Replay: tape(false), Lenient: true, Cycle: true})
+		out2 = s2.Run(func() { got = eval("run's order", 0, false) })
+	}
+	concurrent := func() {
+		cfg := p.Knobs.Config(schedSeed)
+		cfg.Replay, cfg.Lenient, cfg.KeepLog = replay, lenient, keepLog
+		s3 := simrt.New(cfg)
+		out = s3.Run(func() {
+			var ts []*simrt.Task
+			for ti := 0; ti < p.Tasks; ti++ {
+				ti := ti
+				ts = append(ts, simrt.Spawn(fmt.Sprintf("t%d", ti), func() {
+					conc[ti] = eval(fmt.Sprintf("concurrent task %d", ti), ti*37, true)
+				}))
+			}
+			simrt.Join(ts...)
+		})
+	}
+	if p.ConcFirst {
+		concurrent()
+		sequential()
+	} else {
+		sequential()
+		concurrent()
+	}
 	StdOutcome(v, out1)
 	StdOutcome(v, out2)
 	StdOutcome(v, out)
